@@ -71,6 +71,7 @@ FINDINGS = {
     'C07-multi-index-array-outer': ('Array.__getitem__ with two index arrays (a[[0,1],[2,0]]) indexes the outer product instead of pairing the '
                                     'arrays like NumPy: different shape and values', True),
     'C07-transpose-negative-axes': ('numpy.transpose(f, axes) with a negative entry in axes builds but fails with AssertionError at evaluation', True),
+    'C07-abs-int-range-unknown': ('numpy.abs of an integer function array was not usable as integer exponent (range of x*sign(x) not recognised as non-negative)', True),
     'C07-abs-bool': ('numpy.abs of a bool function array builds (dtype bool) but evaluation raises UFuncTypeError', True),
     'C07-interp-int-fp-truncates-left-right': ('numpy.interp(f, xp, fp, left=, right=) with integer fp truncates float left/right to int', True),
     'C07-matmul-singleton-contraction': ('numpy.matmul accepts a contraction axis of length 1 against length n (NumPy rejects): the singleton is broadcast', True),
@@ -148,7 +149,10 @@ def classify(prog, monitor, nodeid, detail=''):
         sub = [byid[a] for r in s['args'][1:] for a in ({r} | _ancestors(prog, r)) if a in byid]
         # element-of-stack mechanism: somewhere below the index / exponent a take or __getitem__ extracts from a scattered integer array
         element = any(t.get('op') in ('take', 'getitem') and any(scattered(byid[a]) for a in ({t['args'][0]} | _ancestors(prog, t['args'][0])) if a in byid) for t in sub)
-        if element:
+        # the expression was BUILT (its ranges were provable at construction) and the range assertion failed when a rewrite rule
+        # re-created the node on a rewritten operand: traceback passes through the lazy `simplified` / optimisation properties
+        rewritten = '_util.py' in detail and 'in __get__' in detail and '__post_init__' in detail and '_intbounds' in detail
+        if element or rewritten:
             return 'C07-int-range-lost-in-rewrite'
         if any(scattered(t) for t in sub):
             return 'C07-assemble-intbounds-missing'
@@ -720,7 +724,19 @@ def repro_choose_bool():
     return bool((r != numpy.abs(v)).any()), 'numpy.choose with a boolean selector evaluates'
 
 
+def repro_abs_exponent():
+    numpy, function = _setup()
+    k = function.Array.cast(numpy.array([0, 1, -2]))
+    b = numpy.array([-1, 4, 1])
+    try:
+        r = function.eval(numpy.power(function.Array.cast(b), numpy.abs(k)))
+    except Exception as e:
+        return True, f'numpy.power(b, numpy.abs(k)) with integer function arrays builds, evaluation raises {type(e).__name__}'
+    return bool((r != b ** numpy.abs([0, 1, -2])).any()), 'numpy.abs of an integer function array is usable as integer exponent'
+
+
 REPRODUCERS = {
+    'C07-abs-int-range-unknown': repro_abs_exponent,
     'C07-assemble-intbounds-missing': repro_assemble_intbounds,
     'C07-int-range-lost-in-rewrite': repro_int_range_element,
     'C07-choose-bool-selector': repro_choose_bool,
